@@ -13,6 +13,14 @@ THEOREMS = {
             "Backend.C10_flush_fault_loses_nothing", "Backend.C10_flush_flag_raised", "Backend.C10_backtrace_without_init",
             "Backend.c10Init_fresh", "Backend.C03_dispatch_exact", "Obligations.backendA_C10_structure",
             "Obligations.C10_extracted"],
+    "C08": ["Backend.C08_started_inv", "Backend.C08_cfg_constant", "Backend.C08_accounting",
+            "Backend.C08_dropped_equals_reported_plus_pending", "Backend.C08_log_call_outcome",
+            "Backend.C08_control_request_retried", "Backend.C08_retry_reattempts", "Backend.C08_control_kinds",
+            "Backend.C08_removed_context_reported_partial", "Backend.C08_check_clears_counters",
+            "Backend.C08_flush_cleanup_loses_count_unrepaired", "Backend.C08_flush_cleanup_reports_repaired",
+            "Backend.C08_count_lost_between_check_and_cleanup", "Backend.c08Init_started",
+            "Backend.C03_conservation", "Backend.C03_at_most_once",
+            "Obligations.backendA_C08_structure", "Obligations.C08_extracted", "Obligations.C08_f17_extracted"],
 }
-MODULES = {"C03": ["QuillModel.Props.C03"], "C10": ["QuillModel.Props.C10"]}
+MODULES = {"C03": ["QuillModel.Props.C03"], "C10": ["QuillModel.Props.C10"], "C08": ["QuillModel.Props.C08"]}
 OBLIG = ["QuillModel.Obligations.BackendA"]
